@@ -21,9 +21,12 @@ import (
 // different connections that touch disjoint mutable state commute, so every
 // interleaving is equivalent to serving them one after the other.
 // ---------------------------------------------------------------------------
-func vConnTraffic(user []byte, name []byte, extended, simple bool) []byte {
+func vConnTraffic(user []byte, name []byte, extended, simple, auth bool) []byte {
 	sync := vMsgBytes('S', nil)
 	in := vStartup(vKV([]byte("user"), user))
+	if auth {
+		in = vCat(in, vMsgBytes('p', vCStr(user))) // the password is the user name
+	}
 	if extended {
 		in = vCat(in,
 			vMsgBytes('P', vCat(vCStr(name), vCStr([]byte("q")), vU16(0))),
@@ -85,10 +88,21 @@ func VerifH15() {
 	if extended {
 		opts = append(opts, ExtendTypes(func(m *pgtype.Map) {}))
 	}
+	withAuth := nondetBool() // configuration: clear-text password authentication
+	authOK := [2]bool{true, true}
+	if withAuth {
+		opts = append(opts, SessionAuthStrategy(ClearTextPassword(func(ctx context.Context, db, user, pw string) (context.Context, bool, error) {
+			// each connection must be validated with its own user name
+			if user != pw {
+				authOK[RemoteAddress(ctx).(vAddr).id] = false
+			}
+			return ctx, true, nil
+		})))
+	}
 	srv, err := NewServer(parse, opts...)
 	vAssert("newserver-ok", err == nil)
-	c1 := vNewConn(vConnTraffic(u1, name, ext1, sim1))
-	c2 := vNewConn(vConnTraffic(u2, name, ext2, sim2))
+	c1 := vNewConn(vConnTraffic(u1, name, ext1, sim1, withAuth))
+	c2 := vNewConn(vConnTraffic(u2, name, ext2, sim2, withAuth))
 	c2.id = 1
 
 	if vRaceMode() {
@@ -112,8 +126,12 @@ func VerifH15() {
 	vAssert("wire-1-wellformed", vWireOK(c1.out))
 	vAssert("wire-2-wellformed", vWireOK(c2.out))
 	// each transcript is what that connection's own traffic and callbacks determine
+	vAssert("each-connection-validated-with-its-own-credentials", authOK[0] && authOK[1])
 	expect := func(s *vIsoState, ext, sim bool) string {
 		want := "R"
+		if withAuth {
+			want = "RR"
+		}
 		out := ""
 		d := "n"
 		if s.cols > 0 {
@@ -193,5 +211,8 @@ func VerifH15() {
 	}
 	if extended && st[0].rows && st[1].rows {
 		vReach("with-type-extension")
+	}
+	if withAuth {
+		vReach("with-authentication")
 	}
 }
